@@ -13,7 +13,7 @@ XPath 1.0 implementation - part 3 (functions)
 import math
 import decimal
 from collections.abc import Iterator
-from typing import Any
+from typing import Any, cast
 
 import elementpath.aliases as ta
 
@@ -526,7 +526,7 @@ def evaluate__round(self: XPathFunction, context: ta.ContextType = None) -> ta.O
             return []
         raise self.error('FORG0006', err) from None
     except decimal.InvalidOperation:
-        return round(arg)
+        return cast(int, round(arg))
     except decimal.DecimalException as err:
         if isinstance(context, XPathSchemaContext):
             return []
